@@ -407,6 +407,27 @@ def mla_rules(prog, rep, R="R3"):
     ok = copied == ["centre", "corners", "xlow", "ylow"] and all(mod.code(s.value) == "self.%s.copy()" % s.targets[0].attr for s in ast.walk(cp.node)
                                                              if isinstance(s, ast.Assign) and isinstance(s.targets[0], ast.Attribute) and s.targets[0].attr in shapes)
     rep.ob(R, "MultiLocationArray.copy copies each of the four locations from the same location", ok, cp.site() if cp else MLA, str(copied), key="mla/copy")
+    # every construction site: MultiLocationArray(<x extent>, <y extent>) - the extents of one and
+    # the same object in that order, or (<x extent>, 1) for an x-direction array
+    nsites, bad = 0, []
+    for m in prog.modules.values():
+        for c in ast.walk(m.tree):
+            if isinstance(c, ast.Call) and isinstance(c.func, ast.Name) and c.func.id == "MultiLocationArray" and len(c.args) == 2 and not c.keywords:
+                nsites += 1
+                a, b = c.args
+                def ext(e):
+                    """(object text, attribute, padding) of `X.nx` or `X.nx + k`"""
+                    pad = 0
+                    if isinstance(e, ast.BinOp) and isinstance(e.op, ast.Add) and isinstance(e.right, ast.Constant) and isinstance(e.right.value, int):
+                        e, pad = e.left, e.right.value
+                    return (m.code(e.value), e.attr, pad) if isinstance(e, ast.Attribute) else None
+                ea, eb = ext(a), ext(b)
+                good = ea is not None and ea[1] == "nx" and ((eb is not None and eb[1] == "ny" and eb[0] == ea[0] and eb[2] == ea[2]) or (isinstance(b, ast.Constant) and b.value == 1))
+                if not good:
+                    bad.append("%s:%d %s" % (m.rel, c.lineno, m.code(c)))
+                    rep.ob(R, "MultiLocationArray is constructed with (X.nx [+ pad], X.ny [+ the same pad]) of one object, or (X.nx, 1)", False, "%s:%d" % (m.rel, c.lineno), m.code(c), key="mla/construct/%s/%s" % (m.rel, m.code(c)))
+    rep.ob(R, "every MultiLocationArray construction passes the x extent first and the y extent second (%d sites)" % nsites, not bad, MLA, "; ".join(bad[:3]), key="mla/construct/all")
+    rep.floor(R + ".mla-constructions", nsites, 30)
 
 
 def r3(prog, rep):
